@@ -1,0 +1,103 @@
+//! Verification hooks. Compiled only with `--cfg fclones_verif`.
+//!
+//! - re-exports of crate-private items needed by the external conformance harness,
+//! - an ndjson event sink (`FCLONES_VERIF_TRACE=<file>`), off unless the variable is set,
+//! - an optional in-process callback, so that a harness can observe (and, at points where no
+//!   lock is held, delay) the instrumented code.
+
+use std::fs::{File, OpenOptions};
+use std::io::Write;
+use std::sync::atomic::{AtomicU64, Ordering};
+use std::sync::{Mutex, OnceLock, RwLock};
+
+pub use crate::arg::{from_stfu8, join, quote, split, to_stfu8, Arg, ParseError};
+pub use crate::dedupe::FsCommand;
+pub use crate::pattern::{Pattern, PatternError, PatternOpts};
+pub use crate::regex::Regex;
+pub use crate::selector::PathSelector;
+pub use crate::semaphore::{OwnedSemaphoreGuard, Semaphore, SemaphoreGuard};
+
+static SEQ: AtomicU64 = AtomicU64::new(0);
+static NEXT_TID: AtomicU64 = AtomicU64::new(1);
+static SINK: OnceLock<Option<Mutex<File>>> = OnceLock::new();
+
+thread_local! {
+    static TID: u64 = NEXT_TID.fetch_add(1, Ordering::SeqCst);
+}
+
+/// Small per-process thread number of the calling thread (1, 2, ... in order of first use).
+pub fn tid() -> u64 {
+    TID.with(|t| *t)
+}
+
+fn sink() -> &'static Option<Mutex<File>> {
+    SINK.get_or_init(|| {
+        std::env::var_os("FCLONES_VERIF_TRACE").and_then(|p| {
+            OpenOptions::new()
+                .create(true)
+                .append(true)
+                .open(p)
+                .ok()
+                .map(Mutex::new)
+        })
+    })
+}
+
+/// True if an event sink or a callback is installed.
+pub fn enabled() -> bool {
+    sink().is_some() || CALLBACK.read().map(|c| c.is_some()).unwrap_or(false)
+}
+
+pub type Callback = Box<dyn Fn(&str, &str) + Send + Sync>;
+static CALLBACK: RwLock<Option<Callback>> = RwLock::new(None);
+
+/// Installs (or removes) the in-process callback. It receives the event name and
+/// the JSON text of the fields.
+pub fn set_callback(cb: Option<Callback>) {
+    *CALLBACK.write().unwrap() = cb;
+}
+
+/// Emits one event. `fields` is the inside of a JSON object (without braces), may be empty.
+/// The sequence number is taken and the line is written while holding the sink lock,
+/// so the order of lines in the file is the order of sequence numbers.
+pub fn emit(ev: &str, fields: &str) {
+    if let Some(sink) = sink() {
+        let mut f = sink.lock().unwrap();
+        let seq = SEQ.fetch_add(1, Ordering::SeqCst) + 1;
+        let sep = if fields.is_empty() { "" } else { "," };
+        let _ = writeln!(
+            f,
+            "{{\"seq\":{},\"tid\":{},\"ev\":\"{}\"{}{}}}",
+            seq,
+            tid(),
+            ev,
+            sep,
+            fields
+        );
+    }
+    if let Some(cb) = CALLBACK.read().unwrap().as_ref() {
+        cb(ev, fields);
+    }
+}
+
+/// JSON string literal for arbitrary bytes: every byte outside printable ASCII, `"` and `\`
+/// is written as \u00XX (i.e. bytes are mapped to the code points 0..255).
+pub fn jbytes(b: &[u8]) -> String {
+    let mut s = String::with_capacity(b.len() + 2);
+    s.push('"');
+    for &c in b {
+        if c == b'"' || c == b'\\' || !(0x20..0x7f).contains(&c) {
+            s.push_str(&format!("\\u{:04x}", c));
+        } else {
+            s.push(c as char);
+        }
+    }
+    s.push('"');
+    s
+}
+
+/// JSON string literal for a path (see [`jbytes`]).
+pub fn jpath(p: &crate::path::Path) -> String {
+    use std::os::unix::ffi::OsStrExt;
+    jbytes(p.to_path_buf().as_os_str().as_bytes())
+}
